@@ -24,6 +24,8 @@ var (
 func checkC09(c *chk.Ctx) {
 	h := newH(c)
 	c.Decided = []string{
+		"R09p the sync loop never waits for a mutex that appenders hold while enqueueing their sync request (lock/channel order)",
+		"R09o the sync loop publishes the synced offset under the WAL mutex and only when no truncation happened during the flush",
 		"R09n recovery declares the log empty only when it has a single segment",
 		"R09m a read-only segment that is taken out of the group's index of segments is also taken out of its cache of open segments (a stale cache entry would be served for offsets that later belong to another segment)",
 		"R09l TruncateLog decides what to cut from the appended end of the log: none of its branch conditions reads the synced offset (entries appended but not yet synced have to go too)",
@@ -55,6 +57,8 @@ func checkC09(c *chk.Ctx) {
 	ruleR09l(h)
 	ruleR09m(h)
 	ruleRecoveredFirstOffset(h, "R09n")
+	ruleSyncedOffsetPublishedUnderLock(h, "R09o")
+	ruleSyncLoopAvoidsProducersMutex(h, "R09p")
 }
 
 // mayBeNil: the (resolved) error operand of a return is not provably non-nil.
